@@ -28,8 +28,8 @@ class IndexErr(IndexError):
     pass
 
 
-class AssertErr(AssertionError):
-    pass
+# privileged class: the plain AssertionError (Scope.PROMOTE_CONCURRENT tests the exact type)
+AssertErr = AssertionError
 
 
 CLASSES = {'Key': KeyErr, 'Index': IndexErr, 'Assert': AssertErr}
@@ -72,7 +72,8 @@ class World:
     # ------------------------------------------------------------ encodings
     def enc(self, err, ctx_task=0):
         """structural encoding of an exception, the same shape as the model's values"""
-        if isinstance(err, (KeyErr, IndexErr, AssertErr)):
+        if isinstance(err, (KeyErr, IndexErr)) or (type(err) is AssertionError and err.args
+                                                     and isinstance(err.args[0], int)):
             cls = 'Key' if isinstance(err, KeyErr) else 'Index' if isinstance(err, IndexErr) else 'Assert'
             return ['exc', err.args[0], cls]
         if isinstance(err, Concurrent):
@@ -116,17 +117,33 @@ class Puppet:
     def __init__(self, world, a):
         self.w = world
         self.a = a
-        self.ops = world.prog[a - 1] if a - 1 < len(world.prog) else []
+        # a task the model did not foresee (e.g. a spawn it expects to be refused) gets a visible default program
+        self.ops = world.prog[a - 1] if a - 1 < len(world.prog) else [{'op': 'sleep', 'd': 1}]
         self.i = 0
+        self.fin = 'none'     # clean-up behaviour when closed
+        self.scope = 0        # scope this task was spawned into
 
     def emit(self, e, **kw):
         self.w.emit(e, self.a, **kw)
+
+    def on_close(self):
+        """clean-up handler of a task that is being closed (GeneratorExit)"""
+        w = self.w
+        if self.fin == 'raise':
+            w.nexc += 1
+            self.emit('b', op='raise', cls='Key', id=w.nexc)
+            self.emit('end', how='failed', exc=['exc', w.nexc, 'Key'])     # the final outcome of this task
+            raise KeyErr(w.nexc)
+        if self.fin == 'spawn':
+            self.spawn({'op': 'do', 's': self.scope, 'vol': False, 'd': 0, 'fin': 'none'})
 
     async def main(self):
         try:
             await self.block()
         except BaseException as err:
             self.emit('end', how=how(err), exc=self.w.enc(err))
+            if isinstance(err, GeneratorExit) and self.fin != 'none':
+                self.on_close()
             raise
         else:
             self.emit('end', how='ok', exc=[])
@@ -142,18 +159,19 @@ class Puppet:
         return True
 
     # ------------------------------------------------------------ leaf ops
-    async def leaf(self, op, awaitable_factory, args, ctx_task=0):
+    async def leaf(self, op, awaitable_factory, args, ctx_task=0, tag=None):
         name = op['op']
+        tag = tag or {}
         self.emit('b', op=name, **args)
         try:
             value = await awaitable_factory()
         except (Exception, Concurrent) as err:
-            self.emit('x', op=name, exc=self.w.enc(err, ctx_task))
+            self.emit('x', op=name, exc=self.w.enc(err, ctx_task), **tag)
         except BaseException as err:
-            self.emit('u', op=name, exc=self.w.enc(err, ctx_task))
+            self.emit('u', op=name, exc=self.w.enc(err, ctx_task), **tag)
             raise
         else:
-            self.emit('r', op=name)
+            self.emit('r', op=name, **tag)
             return value
 
     async def op_instant(self, op):
@@ -185,7 +203,7 @@ class Puppet:
     async def op_await_t(self, op):
         async def f():
             await self.w.tasks[op['k']]
-        await self.leaf(op, f, {'k': op['k']}, ctx_task=op['k'])
+        await self.leaf(op, f, {'k': op['k']}, ctx_task=op['k'], tag={'k': op['k']})
 
     async def op_raise(self, op):
         self.w.nexc += 1
@@ -196,25 +214,38 @@ class Puppet:
         self.emit('p', op='avail', l=op['l'], v=bool(self.w.locks[op['l']].available))
 
     async def op_do(self, op):
+        self.spawn(op)
+
+    def spawn(self, op):
         w = self.w
         scope = w.scopes[op['s']]
         k = w.nact + 1
         child = Puppet(w, k)
+        child.fin = op.get('fin', 'none')
+        child.scope = op['s']
         coro = child.main()
         kw = {}
         if op.get('d'):
             kw['after'] = op['d']
+        args = dict(s=op['s'], vol=op['vol'], d=op.get('d', 0), fin=op.get('fin', 'none'))
         try:
             task = scope.do(coro, volatile=op['vol'], **kw)
-        except Exception as err:
-            self.emit('b', op='do', s=op['s'], vol=op['vol'], d=op.get('d', 0), k=0)
+        except (Exception, Concurrent) as err:
+            self.emit('b', op='do', k=0, **args)
             self.emit('x', op='do', exc=w.enc(err))
         else:
             w.nact = k
             w.tasks[k] = task
             w.task_id[id(task)] = k
-            self.emit('b', op='do', s=op['s'], vol=op['vol'], d=op.get('d', 0), k=k)
+            self.emit('b', op='do', k=k, **args)
             self.emit('r', op='do')
+
+    async def op_status(self, op):
+        st = self.w.tasks[op['k']].status
+        name = {usim.TaskState.CREATED: 'created', usim.TaskState.RUNNING: 'running',
+                usim.TaskState.CANCELLED: 'cancelled', usim.TaskState.FAILED: 'failed',
+                usim.TaskState.SUCCESS: 'success'}.get(st, str(st))
+        self.emit('p', op='status', k=op['k'], v=name)
 
     # ------------------------------------------------------------ block ops
     async def op_enter(self, op):
@@ -306,7 +337,7 @@ def run_program(prog, nroots, nflags=2, nlocks=2, start=0):
             last = tb.tb_frame.f_code.co_filename
             tb = tb.tb_next
         outcome = {'k': 'exc', 'cls': type(err).__name__, 'enc': world.enc(err),
-                   'internal': isinstance(err, Interrupt) or not isinstance(err, (KeyErr, IndexErr, AssertErr, Concurrent)),
+                   'internal': world.enc(err)[0] not in ('exc', 'conc'),
                    'where': last or '', 'msg': str(err)[:120]}
     finally:
         world.frozen = True
